@@ -52,6 +52,16 @@ def _child_verify(i):
     else:
         # the engine gave up: parameter keys are harvested from the string literals of the source instead
         out["fuzz_job"] = fuzz_job(c, res.fs, schema.SCHEMA, set(source_literals(res.fs, c)), {}, seed, 20)
+    # a native run of the real function is comparable with the contract only if every summarised callee has a native
+    # counterpart: verified callee contracts and scripted seams do, unverified summaries and other seams do not
+    def _native_ok(h):
+        if getattr(h, "seam", None) is not None:
+            return h.seam in ("run", "sleep") or any(h.seam in x for x in getattr(c, "native_seams", []))
+        cc = getattr(h, "contract", None)
+        if cc is not None:
+            return bool(cc.props)
+        return bool(getattr(h, "native", False))      # other hand-written handlers: only if marked as having a native twin
+    out["crosscheckable"] = all(_native_ok(h) for h in c.overrides.values() if callable(h))
     if c.block is not None:
         out["fuzz_job"] = None      # an extracted statement block is not callable natively
     for o in res.obligations:
@@ -410,10 +420,17 @@ class PropertyRun:
                     json.dump(fr["witness"], f, indent=1, default=str)
                 proved = all(o["status"] == "proved" for o in self.obligations if o["name"].startswith(name + "."))
                 msg = f"native cross-check of {name} found a contract violation ({fr['witness'].get('obligation')}) see {wpath}"
-                if proved:
+                verdict = fr["witness"].get("replay_verdict") or {}
+                clean = not verdict.get("errors")
+                comparable = next((r.get("crosscheckable", True) for r in results if r["contract"] == name), True)
+                if proved and clean and comparable:
                     self.errors.append("encoding gap: " + msg)
                 else:
-                    print("CROSSCHECK: " + msg)
+                    # not a like-for-like comparison (the precondition could not be evaluated on the generated input, or
+                    # the contract summarises callees that have no native counterpart): recorded, not an error
+                    self.extra["cross_check"][-1]["not_comparable"] = ("requires not evaluable" if not clean else
+                                                                        "summarised callees without native counterpart")
+                    print("CROSSCHECK-NOTE: " + msg + " [not comparable]")
 
     def finish(self, level, explanation, trusted_base, assumptions, undecided_clauses, checker_cmd, extra=None):
         e1 = [o for o in self.obligations if o.get("kind") != "bounded"]
